@@ -269,7 +269,7 @@ func count(ss []string, x string) int {
 }
 
 func busStress(r *vk.Run) {
-	n := r.Pick(600, 20000)
+	n := r.Pick(600, 200000)
 	sched := vk.NewSched()
 	defer sched.Close()
 	for i := 0; i < n; i++ {
@@ -683,7 +683,7 @@ func resForced(r *vk.Run) {
 }
 
 func resStress(r *vk.Run) {
-	n := r.Pick(1500, 60000)
+	n := r.Pick(1500, 400000)
 	sched := vk.NewSched()
 	defer sched.Close()
 	for i := 0; i < n; i++ {
@@ -771,7 +771,7 @@ func resStress(r *vk.Run) {
 		r.Unguard()
 	}
 	// PullID ends when its item is removed, under any timing of the removal
-	m := r.Pick(300, 10000)
+	m := r.Pick(300, 100000)
 	for i := 0; i < m; i++ {
 		if !r.Mine(i) {
 			continue
